@@ -76,6 +76,13 @@ def handle (line : String) : String :=
           viewLine (contentsOf n) (childrenOf n) (descOf n) (textOf n))
       | .error e => showErr e
     | _, _ => "bad-arg"
+  | ["nav", tol, skips, w] =>
+    match decStr w, (if skips == "_" then some [] else (skips.splitOn ",").mapM decStr) with
+    | some s, some sk =>
+      match parse (tol == "1") sk s with
+      | .ok es => (if flatArgsL es then "NAV " else "NAV-NONFLAT ") ++ navHandle es
+      | .error e => showErr e
+    | _, _ => "bad-arg"
   | ["find", tol, skips, w, q] =>
     match decStr w, (if skips == "_" then some [] else (skips.splitOn ",").mapM decStr),
           (q.splitOn ",").mapM decStr with
@@ -90,6 +97,8 @@ def handle (line : String) : String :=
       | .error e => showErr e
     | _, _, _ => "bad-arg"
   | "buf" :: args => bufHandle args
+  | "args" :: ws => argsHandle ws
+  | "lines" :: ws => linesHandle ws
   | _ => "bad-op"
 
 partial def loop (h : IO.FS.Stream) (out : IO.FS.Stream) : IO Unit := do
